@@ -326,7 +326,7 @@ func vfGenTables(r *rand.Rand, maxRows int) []*vfTable {
 		}
 		// rows
 		want := r.IntN(maxRows + 1)
-		if r.IntN(12) == 0 {
+		if r.IntN(25) == 0 {
 			want = 0
 		}
 		if len(t.keys) == 1 && len(t.keys[0]) == 0 {
